@@ -526,18 +526,69 @@ def check_expr_table(cx, rep):
     TS = 'path.into_token_stream().to_string()'
     TS2 = 'path.to_token_stream().to_string()'
 
-    def ncond(c):
-        c = c.replace(TS2, TS)
+    def _split_top(c, op):
+        out, depth, cur, i = [], 0, '', 0
+        while i < len(c):
+            ch = c[i]
+            if ch in '([{':
+                depth += 1
+            elif ch in ')]}':
+                depth -= 1
+            if depth == 0 and c.startswith(op, i):
+                out.append(cur)
+                cur = ''
+                i += len(op)
+                continue
+            cur += ch
+            i += 1
+        out.append(cur)
+        return out
+
+    def _unparen(c):
+        c = c.strip()
         while c.startswith('(') and c.endswith(')'):
-            c = c[1:-1]
-        parts = []
-        for d in c.split('||'):
-            d = d.strip('()')
-            if '==' in d:
-                a_, b_ = d.split('==', 1)
-                d = '=='.join(sorted([a_, b_]))
-            parts.append(d)
-        return '||'.join(sorted(parts))
+            depth, ok_ = 0, True
+            for i_, ch in enumerate(c):
+                depth += ch == '('
+                depth -= ch == ')'
+                if depth == 0 and i_ < len(c) - 1:
+                    ok_ = False
+                    break
+            if not ok_:
+                break
+            c = c[1:-1].strip()
+        return c
+
+    def _unlet(c):
+        """`{letx=E;BODY}` (an inlined single-expression helper whose argument was not a plain name) -> BODY[x := E]"""
+        import re as _re
+        c = c.strip()
+        while c.startswith('{let') and c.endswith('}'):
+            m_ = _re.match(r'^\{let(?:mut)?([A-Za-z_][A-Za-z0-9_]*)=', c)
+            if not m_:
+                break
+            rest = c[m_.end():-1]
+            parts = _split_top(rest, ';')
+            if len(parts) != 2:
+                break
+            c = _re.sub(r'(?<![A-Za-z0-9_.])%s(?![A-Za-z0-9_])' % _re.escape(m_.group(1)), parts[0], parts[1]).strip()
+        return c
+
+    def ncond(c):
+        """disjunctive normal text: top-level `||` of top-level `&&` of atoms, `==` operands sorted, borrows / `.as_str()` dropped"""
+        c = c.replace(' ', '').replace(TS2, TS)
+        c = _unlet(_unparen(c))
+        ors = []
+        for d in _split_top(_unparen(c), '||'):
+            ands = []
+            for a_ in _split_top(_unparen(_unlet(_unparen(d))), '&&'):
+                a_ = _unparen(a_).replace('.as_str()', '').replace('&', '')
+                if '==' in a_:
+                    x_, y_ = a_.split('==', 1)
+                    a_ = '=='.join(sorted([_unparen(x_), _unparen(y_)]))
+                ands.append(a_)
+            ors.append('&&'.join(sorted(ands)))
+        return '||'.join(sorted(ors))
     EXP = {
         # a suffixed literal has one natural type (its suffix); only an unsuffixed one takes any integer / float type
         'Lit::Int': ([('Some(Type::Path(_))', '$1')], ncond('int.suffix()==%s||int.suffix().is_empty()&&INT_TYPES.contains(&%s.as_str())' % (TS, TS))),
@@ -550,6 +601,18 @@ def check_expr_table(cx, rep):
     }
     STR_CONDS = [ncond('reference.elem.clone().into_token_stream().to_string()=="str"'), ncond('reference.elem.into_token_stream().to_string()=="str"'),
                  ncond('reference.elem.to_token_stream().to_string()=="str"')]
+    def _selection_helper(txt):
+        """`helper(&$0)`: a private function of the module that selects the literal of the expression (`Expr::Lit` / negated number)"""
+        import re as _re
+        m_ = _re.match(r'^([A-Za-z_][A-Za-z0-9_]*)\(&?\$0\)$', txt.replace(' ', ''))
+        if not m_:
+            return None
+        hs = [g for g in cx.crate.fns if g.name == m_.group(1) and tuple(g.module.path) == tuple(f.module.path) and g.self_ty is None]
+        if len(hs) != 1:
+            return None
+        ht = Alpha(hs[0]).text(hs[0].block)
+        return ht if 'Expr::Lit' in ht else None
+
     kinds = {}
     for ev in fw.events:
         if ev.kind == 'exit' and ev.how == 'return' and ev.value is not None and al.text(ev.value) == '$0':
@@ -569,7 +632,7 @@ def check_expr_table(cx, rep):
         tys, conds, ev, negs, scr = got[0]
         # the innermost scrutinee is the literal: `lit.lit` of `Expr::Lit(lit)`, or the variable the literal selection
         # (`match &expr { Expr::Lit(l) => Some(&l.lit), Expr::Unary(Neg, Lit(Int|Float)) => Some(..), _ => None }`) is bound to
-        scr_ok = scr == ['$0', 'lit.lit'] or (len(scr) == 2 and scr[1] in ('lit', 'some') and 'Expr::Lit' in scr[0])
+        scr_ok = scr == ['$0', 'lit.lit'] or (len(scr) == 2 and scr[1] in ('lit', 'some') and ('Expr::Lit' in scr[0] or _selection_helper(scr[0])))
         ok = tys == tywant and not negs and scr_ok and len(conds) == 1 and (conds[0] == cwant if cwant is not None else conds[0] in STR_CONDS)
         if ok:
             rep.ok('EXPR-TABLE', '%s|%s' % (where, inst), {'literal': k, 'unchanged_when': '%s %s' % (tys, conds)})
@@ -603,6 +666,8 @@ def check_expr_table(cx, rep):
     # a negative number is a literal too, whichever way it is parsed (`-1` as one literal in `p = -1` at the end of a list, as the
     # negation of a literal in `p(-1)` or when more follows): both forms must go through the same table
     txt_all = al.text(f.block) if hasattr(al, 'text') else ''
+    for c_ in set(sc_ for got_ in kinds.values() for (_t, _c, _e, _n, sc_l) in got_ for sc_ in sc_l[:1]):
+        txt_all += _selection_helper(c_) or ''
     neg_ok = 'Expr::Unary' in txt_all and 'UnOp::Neg' in txt_all and 'Lit::Int' in txt_all and 'Lit::Float' in txt_all
     if neg_ok:
         rep.ok('EXPR-TABLE', where + '|negated number literals are adjusted like literals')
